@@ -2,9 +2,12 @@ package props
 
 import (
 	"bytes"
+	"crypto/tls"
 	"errors"
 	"fmt"
 	"net"
+	"os"
+	"path/filepath"
 	"sync"
 	"testing"
 	"testing/synctest"
@@ -414,6 +417,134 @@ func runC12Second(c *ev.Case, ctx *lib.Ctx, peer2Answers bool, dupAt time.Durati
 	c.Event("second_dial_scenarios", 1)
 }
 
+// runC12Entry: every dial entry point of sm.Client against a scripted peer on a real
+// loopback socket (plain or TLS, tcp or unix). After the handshake the connection
+// idles for several times the dial timeout, then the peer sends an answer: it must be
+// dispatched, and the connection must still be open.
+func runC12Entry(c *ev.Case, ctx *lib.Ctx, entry int) {
+	names := []string{"Dial", "DialNetwork(tcp)", "DialTimeout", "DialTLS", "DialTLSTimeout", "DialNetworkTLS", "DialExt(timeout)", "DialTLSExt(timeout)", "DialNetwork(unix)", "DialNetworkBind"}
+	sig := func(op string) ev.Sig { return ev.Sig{"op": op, "suite": "dial-entry-points", "entry": names[entry]} }
+	useTLS := entry == 3 || entry == 4 || entry == 5 || entry == 7
+	network, addr := "tcp", "127.0.0.1:0"
+	if entry == 8 {
+		network, addr = "unix", filepath.Join(os.Getenv("VERIF_TMP"), fmt.Sprintf("c12-%d-%d.sock", os.Getpid(), c.I))
+		os.Remove(addr)
+		defer os.Remove(addr)
+	}
+	ln, err := net.Listen(network, addr)
+	if err != nil {
+		c.Fail(sig("setup"), nil, nil, "listen: %v", err)
+		return
+	}
+	defer ln.Close()
+	if useTLS {
+		cfg, err := c15TLSConfig()
+		if err != nil {
+			c.Fail(sig("setup"), nil, nil, "certificate: %v", err)
+			return
+		}
+		ln = tls.NewListener(ln, cfg)
+	}
+	const timeout = 150 * time.Millisecond
+	sendAnswer := make(chan struct{})
+	peerDone := make(chan string, 1)
+	go func() {
+		pc, err := ln.Accept()
+		if err != nil {
+			peerDone <- "accept: " + err.Error()
+			return
+		}
+		defer pc.Close()
+		pc.SetDeadline(time.Now().Add(120 * time.Second))
+		var buf []byte
+		tmp := make([]byte, 4096)
+		for {
+			msgs, _ := peer.SplitMessages(buf)
+			if len(msgs) > 0 {
+				h := peer.Header(msgs[0])
+				if _, err := pc.Write(peer.StdCEA(h.HopByHop, h.EndToEnd, 2001, 4)); err != nil {
+					peerDone <- "write CEA: " + err.Error()
+					return
+				}
+				break
+			}
+			n, err := pc.Read(tmp)
+			if err != nil {
+				peerDone <- "read CER: " + err.Error()
+				return
+			}
+			buf = append(buf, tmp[:n]...)
+		}
+		<-sendAnswer
+		if _, err := pc.Write(peer.Msg(0x40, 272, 4, 7, 8, peer.Str(peer.SessionID, refcodec.UTF8String, "s;1"), peer.U32(peer.ResultCode, 2001))); err != nil {
+			peerDone <- "write answer: " + err.Error()
+			return
+		}
+		// the client must not have closed: the next read blocks until the test closes the connection
+		pc.SetReadDeadline(time.Now().Add(300 * time.Millisecond))
+		if _, err := pc.Read(tmp); err == nil || !os.IsTimeout(err) {
+			peerDone <- fmt.Sprintf("after the answer the peer's read returned %v (connection closed by the client?)", err)
+			return
+		}
+		peerDone <- ""
+	}()
+	settings := &sm.Settings{OriginHost: "cli.local", OriginRealm: "realm.local", VendorID: 13, ProductName: "verif"}
+	if network == "unix" {
+		// a unix socket has no IP address to derive Host-IP-Address from
+		settings.HostIPAddresses = []datatype.Address{datatype.Address(net.IP{192, 0, 2, 9})}
+	}
+	machine := sm.New(settings)
+	got := make(chan struct{}, 4)
+	machine.HandleFunc("CCA", func(diam.Conn, *diam.Message) { got <- struct{}{} })
+	cli := &sm.Client{Dict: ctx.Parser, Handler: machine, MaxRetransmits: 1, RetransmitInterval: 2 * time.Second,
+		AuthApplicationID: []*diam.AVP{diam.NewAVP(258, 0x40, 0, datatype.Unsigned32(4))}}
+	a := ln.Addr().String()
+	var conn diam.Conn
+	switch entry {
+	case 0:
+		conn, err = cli.Dial(a)
+	case 1:
+		conn, err = cli.DialNetwork("tcp", a)
+	case 2:
+		conn, err = cli.DialTimeout(a, timeout)
+	case 3:
+		conn, err = cli.DialTLS(a, "", "")
+	case 4:
+		conn, err = cli.DialTLSTimeout(a, "", "", timeout)
+	case 5:
+		conn, err = cli.DialNetworkTLS("tcp", a, "", "", nil)
+	case 6:
+		conn, err = cli.DialExt("tcp", a, timeout, nil)
+	case 7:
+		conn, err = cli.DialTLSExt("tcp", a, "", "", timeout, nil)
+	case 8:
+		conn, err = cli.DialNetwork("unix", a)
+	case 9:
+		conn, err = cli.DialNetworkBind("tcp", "127.0.0.1:0", a)
+	}
+	if err != nil {
+		c.Fail(sig("outcome"), nil, nil, "%s to a peer that answers the CER with a success CEA failed: %v", names[entry], err)
+		close(sendAnswer)
+		<-peerDone
+		return
+	}
+	defer conn.Close()
+	time.Sleep(4 * timeout) // idle well beyond the dial timeout
+	close(sendAnswer)
+	select {
+	case <-got:
+	case <-time.After(30 * time.Second):
+		c.Fail(sig("answer-not-dispatched"), nil, nil, "%s: an answer sent %v after the handshake (dial timeout %v where the entry point takes one) was not dispatched within 30 s", names[entry], 4*timeout, timeout)
+		<-peerDone
+		return
+	}
+	if msg := <-peerDone; msg != "" {
+		c.Fail(sig("closed-after-handshake"), nil, nil, "%s: %s", names[entry], msg)
+		return
+	}
+	c.Event("dial_entry_points", 1)
+}
+
 func TestC12(t *testing.T) {
 	rec := ev.Open(t, "C12")
 	defer rec.Close()
@@ -500,6 +631,11 @@ func TestC12(t *testing.T) {
 		}
 	})
 	rec.Exhaustive("scripts")
+	rec.Suite("dial-entry-points", 10*rec.N(1, 20), func(c *ev.Case) {
+		entry := c.I % 10
+		c.Class("dial-entry/%d", entry)
+		runC12Entry(c, ctx, entry)
+	})
 	rec.Suite("second-dial", 2*4*rec.N(2, 200), func(c *ev.Case) {
 		answers := c.I%2 == 0
 		dupAt := []time.Duration{0, 100 * time.Millisecond, 500 * time.Millisecond, 900 * time.Millisecond}[(c.I/2)%4]
